@@ -79,6 +79,7 @@ var properties = map[string][]harnessSpec{
 		{Name: "cmd.VerifC09MainExit", Marks: end},
 		{Name: "cmd.VerifC09WriteConv", Marks: []string{"end", "converted", "refused"}},
 		{Name: "cmd.VerifC09CLINonsense", Marks: end},
+		{Name: "cmd.VerifC09InfoCommands", Quick: map[string]int{"C09.flagLen": 2}, Thorough: map[string]int{"C09.flagLen": 3}, Marks: []string{"end", "failed", "printed"}},
 		{Name: "astconv.VerifC09ConvertNoPanic", Quick: map[string]int{"C09.digits": 2, "C09.metaLen": 2}, Thorough: map[string]int{"C09.digits": 3, "C09.metaLen": 3}, Marks: []string{"end", "converted", "refused"}},
 	},
 	"C16": {
